@@ -92,9 +92,12 @@ class C11(Check):
         faulty = rng.random() < 0.55
         replies = []
         for _ in range(rng.randrange(1, 8)):
-            kind = rng.choice(['ok', 'ok', 'ok', 'ok', 'error', 'unsolicited', 'garbage'] +
+            kind = rng.choice(['ok', 'ok', 'ok', 'ok', 'error', 'unsolicited', 'garbage', 'split'] +
                               (['none', 'midline'] if faulty else []))
             step = {'kind': kind, 'delay': rng.choice([0, 0, 0.001, 0.01, 0.3, 1.2, 4.0] + ([11.0, 14.0] if faulty else []))}
+            if kind == 'split':
+                step['gap'] = rng.choice([0.2, 0.9, 1.05, 1.5, 2.5])
+                step['frac'] = rng.choice([0.1, 0.5, 0.9])
             if rng.random() < 0.3:
                 step['updates_before'] = [rng.randrange(100)]
             if rng.random() < 0.3:
